@@ -2,7 +2,10 @@
 //! scripted raw clients and a gated handler. After every op all spawned tasks run until stalled
 //! (paused clock), so each op is atomic and deterministic.
 //!
-//! line: `srv <h1|auto> <graceful 0|1|2 (2: the completed serving future is kept alive)> <acc raw|wrapped> <makefail k|-> ; <op> ; …`
+//! line: `srv <h1|auto> <graceful 0|1|2 (2: the completed serving future is kept alive)> <acc raw|wrapped|tls> <makefail k|-> ; <op> ; …`
+//!   acc `tls`: the wrapped acceptor with TLS; a client connects the transport at `conn` and performs the TLS handshake with its
+//!   first `send` (so it can be connected without having said anything yet); its `eof` is 1 when the server closed the TLS session
+//!   properly (close_notify) and 2 when the transport just ended
 //!   op: `conn i` | `connx i` (connect request queued, then the client gives up before it is accepted)
 //!       | `send i full|half|rest|garbage|prihalf|pri` | `gate i` | `close i` | `signal` | `droplistener`
 //!       | `sigconn i` / `sigdrop`: the signal resolves and a connect request / loss of the listener become ready before the server runs again
@@ -44,7 +47,9 @@ async fn handler(sh: Arc<Shared>, req: http::Request<Body>) -> Result<http::Resp
     Ok(http::Response::new(Body::from("ok")))
 }
 
-enum Client { None, Open { io: DuplexStream, buf: Vec<u8>, eof: bool }, Closed { buf: Vec<u8>, eof: bool }, Refused }
+enum CIo { Plain(DuplexStream), PreTls(DuplexStream), Tls(Box<tokio_rustls::client::TlsStream<DuplexStream>>), Gone }
+/// eof: 0 no, 1 the server closed the connection, 2 (TLS) the transport ended without the session having been closed
+enum Client { None, Open { io: CIo, buf: Vec<u8>, eof: u8 }, Closed { buf: Vec<u8>, eof: u8 }, Refused }
 
 const HALF: &str = "GET /x HT";
 fn full(i: usize) -> String { format!("GET /x HTTP/1.1\r\nhost: example.com\r\nx-c: {i}\r\n\r\n") }
@@ -57,12 +62,39 @@ fn drain(c: &mut Client) {
         loop {
             let mut tmp = [0u8; 4096];
             let mut rb = ReadBuf::new(&mut tmp);
-            match Pin::new(&mut *io).poll_read(&mut cx, &mut rb) {
-                Poll::Ready(Ok(())) => { if rb.filled().is_empty() { *eof = true; break; } buf.extend_from_slice(rb.filled()); }
-                Poll::Ready(Err(_)) => { *eof = true; break; }
+            let (res, tls) = match io {
+                CIo::Plain(io) | CIo::PreTls(io) => (Pin::new(&mut *io).poll_read(&mut cx, &mut rb), false),
+                CIo::Tls(io) => (Pin::new(&mut **io).poll_read(&mut cx, &mut rb), true),
+                CIo::Gone => break,
+            };
+            match res {
+                Poll::Ready(Ok(())) => { if rb.filled().is_empty() { if *eof == 0 { *eof = 1; } break; } buf.extend_from_slice(rb.filled()); }
+                Poll::Ready(Err(e)) => { if *eof == 0 { *eof = if tls && e.kind() == std::io::ErrorKind::UnexpectedEof { 2 } else { 1 }; } break; }
                 Poll::Pending => break,
             }
         }
+    }
+}
+
+#[derive(Debug)]
+struct AnyCert(Arc<rustls::crypto::CryptoProvider>);
+impl rustls::client::danger::ServerCertVerifier for AnyCert {
+    fn verify_server_cert(&self, _: &rustls::pki_types::CertificateDer<'_>, _: &[rustls::pki_types::CertificateDer<'_>], _: &rustls::pki_types::ServerName<'_>, _: &[u8], _: rustls::pki_types::UnixTime) -> Result<rustls::client::danger::ServerCertVerified, rustls::Error> { Ok(rustls::client::danger::ServerCertVerified::assertion()) }
+    fn verify_tls12_signature(&self, m: &[u8], c: &rustls::pki_types::CertificateDer<'_>, d: &rustls::DigitallySignedStruct) -> Result<rustls::client::danger::HandshakeSignatureValid, rustls::Error> { rustls::crypto::verify_tls12_signature(m, c, d, &self.0.signature_verification_algorithms) }
+    fn verify_tls13_signature(&self, m: &[u8], c: &rustls::pki_types::CertificateDer<'_>, d: &rustls::DigitallySignedStruct) -> Result<rustls::client::danger::HandshakeSignatureValid, rustls::Error> { rustls::crypto::verify_tls13_signature(m, c, d, &self.0.signature_verification_algorithms) }
+    fn supported_verify_schemes(&self) -> Vec<rustls::SignatureScheme> { self.0.signature_verification_algorithms.supported_schemes() }
+}
+
+/// the client's side of the TLS handshake (the server runs meanwhile); `Err(true)` if the server has closed the connection,
+/// `Err(false)` if nobody answers
+async fn tls_handshake(io: DuplexStream) -> Result<Box<tokio_rustls::client::TlsStream<DuplexStream>>, bool> {
+    let provider = Arc::new(rustls::crypto::ring::default_provider());
+    let cfg = rustls::ClientConfig::builder().dangerous().with_custom_certificate_verifier(Arc::new(AnyCert(provider))).with_no_client_auth();
+    let name = rustls::pki_types::ServerName::try_from("example.com").unwrap();
+    match tokio::time::timeout(std::time::Duration::from_millis(50), tokio_rustls::TlsConnector::from(Arc::new(cfg)).connect(name, io)).await {
+        Ok(Ok(s)) => Ok(Box::new(s)),
+        Ok(Err(_)) => Err(true),
+        Err(_) => Err(false),
     }
 }
 
@@ -99,6 +131,7 @@ async fn run_case(cfg: &[&str], ops: &[Vec<&str>]) -> String {
     // 2 = with_graceful_shutdown, the completed future is kept alive (nothing may depend on it being dropped)
     let graceful = cfg[1] != "0";
     let hold = cfg[1] == "2";
+    let tls = cfg[2] == "tls";
     macro_rules! finish {
         ($srv:expr) => {{
             let srv = $srv;
@@ -107,10 +140,13 @@ async fn run_case(cfg: &[&str], ops: &[Vec<&str>]) -> String {
         }};
     }
     let serve: ServeFut = match (cfg[0], cfg[2]) {
+        ("h1", "tls") => { crate::tls::install(); finish!(Server::builder().with_acceptor(Acceptor::from(incoming).with_tls(Arc::new(crate::tls::server_config("good", "-")))).with_make_service(make!(hyperdriver::server::conn::Stream)).with_http1().with_tokio()) }
+        (_, "tls") => { crate::tls::install(); finish!(Server::builder().with_acceptor(Acceptor::from(incoming).with_tls(Arc::new(crate::tls::server_config("good", "-")))).with_make_service(make!(hyperdriver::server::conn::Stream)).with_auto_http().with_tokio()) }
         ("h1", "raw") => finish!(Server::builder().with_acceptor(incoming).with_make_service(make!(DuplexStream)).with_http1().with_tokio()),
-        ("h1", _) => finish!(Server::builder().with_acceptor(Acceptor::from(incoming)).with_make_service(make!(hyperdriver::server::conn::Stream)).with_http1().with_tokio()),
+        ("h1", "wrapped") => finish!(Server::builder().with_acceptor(Acceptor::from(incoming)).with_make_service(make!(hyperdriver::server::conn::Stream)).with_http1().with_tokio()),
         (_, "raw") => finish!(Server::builder().with_acceptor(incoming).with_make_service(make!(DuplexStream)).with_auto_http().with_tokio()),
-        (_, _) => finish!(Server::builder().with_acceptor(Acceptor::from(incoming)).with_make_service(make!(hyperdriver::server::conn::Stream)).with_auto_http().with_tokio()),
+        (_, "wrapped") => finish!(Server::builder().with_acceptor(Acceptor::from(incoming)).with_make_service(make!(hyperdriver::server::conn::Stream)).with_auto_http().with_tokio()),
+        (_, _) => unreachable!(),
     };
     let result: Arc<Mutex<Option<String>>> = Default::default();
     let r2 = result.clone();
@@ -135,7 +171,7 @@ async fn run_case(cfg: &[&str], ops: &[Vec<&str>]) -> String {
                         let h = tokio::spawn(async move { cl.connect(64 * 1024).await });
                         settle().await;
                         if h.is_finished() {
-                            clients[i] = match h.await { Ok(Ok(io)) => Client::Open { io, buf: vec![], eof: false }, _ => Client::Refused };
+                            clients[i] = match h.await { Ok(Ok(io)) => Client::Open { io: if tls { CIo::PreTls(io) } else { CIo::Plain(io) }, buf: vec![], eof: 0 }, _ => Client::Refused };
                         } else {
                             // nobody accepts any more (server gone or not polling): give up
                             h.abort();
@@ -155,7 +191,12 @@ async fn run_case(cfg: &[&str], ops: &[Vec<&str>]) -> String {
                 }
             }
             "send" => {
-                if let Client::Open { io, .. } = &mut clients[i] {
+                if let Client::Open { io, eof, .. } = &mut clients[i] {
+                    // TLS: the first thing a client sends is preceded by its handshake
+                    if matches!(io, CIo::PreTls(_)) {
+                        let CIo::PreTls(raw) = std::mem::replace(io, CIo::Gone) else { unreachable!() };
+                        match tls_handshake(raw).await { Ok(s) => *io = CIo::Tls(s), Err(closed) => { if closed && *eof == 0 { *eof = 1; } } }
+                    }
                     let bytes: Vec<u8> = match op.get(2).copied().unwrap_or("") {
                         "full" => full(i).into_bytes(),
                         "half" => HALF.as_bytes().to_vec(),
@@ -165,8 +206,11 @@ async fn run_case(cfg: &[&str], ops: &[Vec<&str>]) -> String {
                         "pri" => crate::sniff::PREFACE.to_vec(),
                         _ => vec![],
                     };
-                    let _ = io.write_all(&bytes).await;
-                    let _ = io.flush().await;
+                    match io {
+                        CIo::Plain(io) | CIo::PreTls(io) => { let _ = io.write_all(&bytes).await; let _ = io.flush().await; }
+                        CIo::Tls(io) => { let _ = io.write_all(&bytes).await; let _ = io.flush().await; }
+                        CIo::Gone => {}
+                    }
                 }
             }
             "gate" => gate(&sh, i).add_permits(1),
@@ -189,7 +233,7 @@ async fn run_case(cfg: &[&str], ops: &[Vec<&str>]) -> String {
                         let h = tokio::spawn(async move { match first { Poll::Ready(r) => r, Poll::Pending => fut.await } });
                         settle().await;
                         if h.is_finished() {
-                            clients[i] = match h.await { Ok(Ok(io)) => Client::Open { io, buf: vec![], eof: false }, _ => Client::Refused };
+                            clients[i] = match h.await { Ok(Ok(io)) => Client::Open { io: if tls { CIo::PreTls(io) } else { CIo::Plain(io) }, buf: vec![], eof: 0 }, _ => Client::Refused };
                         } else { h.abort(); clients[i] = Client::Refused; }
                     } else { clients[i] = Client::Refused; }
                 }
@@ -205,8 +249,8 @@ async fn run_case(cfg: &[&str], ops: &[Vec<&str>]) -> String {
             match c {
                 Client::None => format!("n.0.0.{hc}"),
                 Client::Refused => format!("r.0.0.{hc}"),
-                Client::Open { buf, eof, .. } => format!("o.{}.{}.{hc}", count_ok(buf), *eof as u8),
-                Client::Closed { buf, eof } => format!("x.{}.{}.{hc}", count_ok(buf), *eof as u8),
+                Client::Open { buf, eof, .. } => format!("o.{}.{}.{hc}", count_ok(buf), *eof),
+                Client::Closed { buf, eof } => format!("x.{}.{}.{hc}", count_ok(buf), *eof),
             }
         }).collect();
         out.push(format!("{srv} {}", cs.join(" ")));
@@ -228,7 +272,7 @@ pub fn run(toks: &[&str]) -> String {
 pub fn gen(r: &mut Rng, _i: u64) -> String {
     let proto = if r.chance(1, 2) { "h1" } else { "auto" };
     let graceful = match r.below(8) { 0 | 1 => 0, 2 | 3 | 4 => 1, _ => 2 };
-    let acc = if r.chance(1, 2) { "raw" } else { "wrapped" };
+    let acc = match r.below(3) { 0 => "raw", 1 => "wrapped", _ => "tls" };
     let makefail = if r.chance(1, 8) { r.below(3).to_string() } else { "-".to_string() };
     // the generator tracks the obvious client state so that most ops are meaningful
     #[derive(Clone, Copy, PartialEq)]
